@@ -24,3 +24,25 @@ CHECKS["C14"] = dict(
     technique="property-based testing (rapid) against a reference model + exhaustive enumeration of sub-spaces",
     design_ref="DESIGN.md section 4, C14",
 )
+
+CHECKS["C01"] = dict(
+    pkg="c01", level="exploration",
+    props=[dict(name="TestPropNewestWins", quick=360, thorough=16 * 2500, shards_quick=12, shards_thorough=16)],
+    rule="rapid draws 2-4 targets among three nodes and four edges (one node mirrored under two parents, the root's own "
+         "edge), per target 1-10 identities from a colliding alphabet (type+key concatenations that coincide, key \"\"/\"0\" "
+         "spellings), per identity 1-5 points with distinct timestamps (dense, +-1 ns, pre-1970, near int64 limits) and "
+         "independent random value/text/data/tombstone/origin; two independent deliveries (permutation + up to 8 "
+         "re-deliveries, cut into per-target batches of 1-8) go to two fresh instances. Oracle: after every acknowledged "
+         "batch the read of the target equals a newest-wins map; both instances end up equal. Non-trivial = a delivery "
+         "contains a point older than the one held at that moment AND a batch with >=2 points of one identity.",
+    assumptions=["timestamps are distinct per identity and never the zero time (outside the quantifier)",
+                 "strings are valid UTF-8 (the wire format rejects anything else); NaN values belong to C05",
+                 "values are compared with == (+0 equals -0); bit equality is C12's business",
+                 "node-type edge points and tombstones aimed at the root are excluded here (not stored / refused by design, C05)"],
+    level_text="Generated histories (rapid) against a newest-wins reference map with a metamorphic second delivery order; each "
+               "case runs two real store instances over an in-process NATS server, so the whole write path (decode, Collapse, "
+               "SQL upsert, read) is exercised.",
+    level_note="Trusted: the reference map in harness/internal/model, the NATS request/reply transport.",
+    technique="property-based testing (rapid): model-based comparison after every batch + order-independence metamorphic relation",
+    design_ref="DESIGN.md section 4, C01",
+)
